@@ -14,6 +14,270 @@ func init() {
 	addRules("C08", rulesC08FiltersDoNotWriteInput)
 	addRules("C11", rulesC11ValueScanUnbounded)
 	addRules("C09", rulesC09AtomicBudget)
+	addRules("C14", rulesC14KeyFromFinalStruct)
+	addRules("C21", rulesC21SubringOwnsNodes)
+}
+
+// C21: a tenant's cached sub-ring keeps the node list it was built from (newKetamaHashring stores the slice it is
+// given). The list handed over is therefore built in storage of its own on every computation: a list that lives
+// in the shuffle-shard ring (a scratch field, a reslice of the base ring) is overwritten by the next tenant's
+// computation and the cached sub-ring silently changes its nodes.
+func rulesC21SubringOwnsNodes(c *Ctx) {
+	const rel, rule = "pkg/receive", "subring-owns-its-node-list"
+	c.Rule(rule, "the node list of a tenant's sub-ring is freshly allocated per computation (or copied by the constructor)", 1)
+	p := c.Load("pkg/receive")
+	if p == nil {
+		return
+	}
+	fn := p.Func(rel, "shuffleShardHashring", "getTenantShard")
+	ctor := p.Func(rel, "", "newKetamaHashring")
+	construct := rel + ".(*shuffleShardHashring).getTenantShard"
+	if fn == nil || ctor == nil {
+		c.Incomplete(rule, construct, "", "getTenantShard / newKetamaHashring not found")
+		return
+	}
+	// does the constructor keep its argument?
+	keeps := false
+	if ps := ctor.Decl.Type.Params; ps != nil && len(ps.List) > 0 && len(ps.List[0].Names) > 0 {
+		po := ctor.Info().Defs[ps.List[0].Names[0]]
+		ast.Inspect(ctor.Body(), func(n ast.Node) bool {
+			switch v := n.(type) {
+			case *ast.KeyValueExpr:
+				if id, ok := unparen(v.Value).(*ast.Ident); ok && objOf(ctor.Info(), id) == po {
+					keeps = true
+				}
+			case *ast.AssignStmt:
+				for i, r := range v.Rhs {
+					if id, ok := unparen(r).(*ast.Ident); ok && objOf(ctor.Info(), id) == po && i < len(v.Lhs) {
+						if _, isSel := unparen(v.Lhs[i]).(*ast.SelectorExpr); isSel {
+							keeps = true
+						}
+					}
+				}
+			}
+			return true
+		})
+	}
+	if !keeps {
+		c.Check(true, rule, construct, p.Pos(fn.Decl.Pos()), "", "")
+		return
+	}
+	info := fn.Info()
+	bad, where, calls := "", p.Pos(fn.Decl.Pos()), 0
+	ast.Inspect(fn.Body(), func(n ast.Node) bool {
+		call, ok := n.(*ast.CallExpr)
+		if !ok || len(call.Args) == 0 {
+			return true
+		}
+		if f := calleeOf(info, call); f == nil || f.Name() != "newKetamaHashring" {
+			return true
+		}
+		calls++
+		id, ok := unparen(call.Args[0]).(*ast.Ident)
+		if !ok {
+			if !freshSliceExpr(info, call.Args[0], nil) {
+				bad, where = "the sub-ring is built from `"+canon(call.Args[0])+"`, which is not storage of its own", p.Pos(call.Pos())
+			}
+			return true
+		}
+		o := objOf(info, id)
+		ndefs := 0
+		ast.Inspect(fn.Body(), func(m ast.Node) bool {
+			var lhs, rhs []ast.Expr
+			switch v := m.(type) {
+			case *ast.AssignStmt:
+				lhs, rhs = v.Lhs, v.Rhs
+			case *ast.ValueSpec:
+				for _, nm := range v.Names {
+					lhs = append(lhs, nm)
+				}
+				rhs = v.Values
+			default:
+				return true
+			}
+			for i, l := range lhs {
+				li, ok := unparen(l).(*ast.Ident)
+				if !ok || objOf(info, li) != o {
+					continue
+				}
+				ndefs++
+				if len(rhs) == 0 {
+					continue // var x []T
+				}
+				if len(rhs) != len(lhs) {
+					bad, where = "`"+canon(id)+"` comes from a multi-value call", p.Pos(m.Pos())
+					continue
+				}
+				if !freshSliceExpr(info, rhs[i], o) {
+					bad, where = "`"+stmtText(p, m)+"`: the node list handed to newKetamaHashring is not freshly allocated", p.Pos(m.Pos())
+				}
+			}
+			return true
+		})
+		if ndefs == 0 {
+			bad, where = "`"+canon(id)+"` is not a local of this computation", p.Pos(call.Pos())
+		}
+		return true
+	})
+	if calls == 0 {
+		bad = "no sub-ring construction found"
+	}
+	c.Check(bad == "", rule, construct, where, "subring-shares-node-storage",
+		bad+": newKetamaHashring keeps the slice, so every cached sub-ring built from shared storage changes when the next tenant is computed — a tenant is no longer assigned the same nodes every time")
+}
+
+// freshSliceExpr: make(...), a composite literal, nil, slices.Clone(...), append of fresh or of the variable itself.
+func freshSliceExpr(info *types.Info, e ast.Expr, self types.Object) bool {
+	switch v := unparen(e).(type) {
+	case *ast.CompositeLit:
+		return true
+	case *ast.Ident:
+		return v.Name == "nil" || (self != nil && objOf(info, v) == self)
+	case *ast.CallExpr:
+		if id, ok := unparen(v.Fun).(*ast.Ident); ok {
+			switch id.Name {
+			case "make":
+				return true
+			case "append":
+				if len(v.Args) == 0 {
+					return false
+				}
+				// append([]T(nil), xs...) / append([]T{}, xs...) copy; append(self, x) grows own storage
+				if c, ok := unparen(v.Args[0]).(*ast.CallExpr); ok && len(c.Args) == 1 {
+					if tv, ok := info.Types[c.Fun]; ok && tv.IsType() {
+						return freshSliceExpr(info, c.Args[0], self)
+					}
+				}
+				return freshSliceExpr(info, v.Args[0], self)
+			}
+		}
+		if f := calleeOf(info, v); f != nil && f.Pkg() != nil && f.Pkg().Path() == "slices" && f.Name() == "Clone" {
+			return true
+		}
+	}
+	return false
+}
+
+// C14: a cache key is rendered from the key struct after its last field write: a field assigned after
+// String() was taken (the recursive-listing verb, an object-storage hash) is not part of the key, and two
+// operations with different results share one entry. And the listing key distinguishes recursive listings.
+func rulesC14KeyFromFinalStruct(c *Ctx) {
+	const rel, rule = "pkg/store/cache", "key-rendered-from-final-struct"
+	c.Rule(rule, "no cache-key field is written after the key string was taken; recursive listings have their own verb", 1)
+	p := c.Load("pkg/store/cache")
+	if p == nil {
+		return
+	}
+	isKey := func(t types.Type) bool { return t != nil && isNamed(t, "cache/cachekey", "BucketCacheKey") }
+	for _, fn := range p.AllFuncs(true) {
+		if fn.Pkg.PkgPath == "" || !strings.HasSuffix(fn.Pkg.PkgPath, rel) {
+			continue
+		}
+		info := fn.Info()
+		// key variables with a field write
+		type fw struct {
+			node ast.Node
+			sel  *ast.SelectorExpr
+		}
+		writes := map[types.Object][]fw{}
+		ast.Inspect(fn.Body(), func(n ast.Node) bool {
+			as, ok := n.(*ast.AssignStmt)
+			if !ok {
+				return true
+			}
+			for _, l := range as.Lhs {
+				if se, ok := unparen(l).(*ast.SelectorExpr); ok {
+					if id, ok := unparen(se.X).(*ast.Ident); ok {
+						if o := objOf(info, id); o != nil && isKey(o.Type()) {
+							writes[o] = append(writes[o], fw{as, se})
+						}
+					}
+				}
+			}
+			return true
+		})
+		construct := rel + "." + fn.Name
+		for o, ws := range writes {
+			obj := o
+			e := newE3(p, fn, []Ev{{Name: "render", Match: func(i *types.Info, call *ast.CallExpr) bool {
+				se, ok := unparen(call.Fun).(*ast.SelectorExpr)
+				if !ok || se.Sel.Name != "String" {
+					return false
+				}
+				id, ok := unparen(se.X).(*ast.Ident)
+				return ok && objOf(i, id) == obj
+			}}})
+			bad, where := "", p.Pos(fn.Node().Pos())
+			for _, w := range ws {
+				if b, ok := e.Before(w.node, "render"); ok && b&^eNo != 0 {
+					bad, where = "`"+stmtText(p, w.node)+"` writes "+obj.Name()+"."+w.sel.Sel.Name+" after "+obj.Name()+".String() was taken "+evBitsString(b), p.Pos(w.node.Pos())
+				}
+			}
+			c.Check(bad == "", rule, construct+"#"+shortType(obj.Type()), where, "key-field-written-after-render",
+				bad+": the field is not part of the key, so operations that differ only in it read and fill the same entry")
+		}
+		if fn.Name != "(*CachingBucket).Iter" {
+			continue
+		}
+		// the recursive option selects its own verb
+		found := false
+		ast.Inspect(fn.Body(), func(n ast.Node) bool {
+			as, ok := n.(*ast.AssignStmt)
+			if !ok || len(as.Lhs) != 1 || len(as.Rhs) != 1 {
+				return true
+			}
+			switch l := unparen(as.Lhs[0]).(type) {
+			case *ast.SelectorExpr:
+				if l.Sel.Name != "Verb" || !isKey(info.TypeOf(l.X)) {
+					return true
+				}
+			case *ast.Ident:
+				// a local that becomes the Verb of a key literal
+				o, used := objOf(info, l), false
+				ast.Inspect(fn.Body(), func(m ast.Node) bool {
+					if cl, ok := m.(*ast.CompositeLit); ok && isKey(info.TypeOf(cl)) {
+						for _, el := range cl.Elts {
+							if kv, ok := el.(*ast.KeyValueExpr); ok && canon(kv.Key) == "Verb" {
+								if id, ok := unparen(kv.Value).(*ast.Ident); ok && o != nil && objOf(info, id) == o {
+									used = true
+								}
+							}
+						}
+					}
+					return true
+				})
+				if !used {
+					return true
+				}
+			default:
+				return true
+			}
+			if !strings.HasSuffix(canon(as.Rhs[0]), "IterRecursiveVerb") {
+				return true
+			}
+			for _, g := range guardsOf(p, fn, as) {
+				if g.Pol && strings.HasSuffix(canon(g.Cond), ".Recursive") {
+					found = true
+				}
+			}
+			return true
+		})
+		if !found {
+			// or chosen in the literal through a helper / conditional variable: accept a Verb that is not the constant IterVerb
+			ast.Inspect(fn.Body(), func(n ast.Node) bool {
+				if cl, ok := n.(*ast.CompositeLit); ok && isKey(info.TypeOf(cl)) {
+					for _, el := range cl.Elts {
+						if kv, ok := el.(*ast.KeyValueExpr); ok && canon(kv.Key) == "Verb" && !strings.HasSuffix(canon(kv.Value), "IterVerb") {
+							found = strings.Contains(expandDefText(fn, info, kv.Value), "Recursive") || found
+						}
+					}
+				}
+				return true
+			})
+		}
+		c.Check(found, rule, construct+"#recursive-verb", p.Pos(fn.Node().Pos()), "recursive-listing-shares-key",
+			"Iter does not select the recursive verb under the Recursive option: flat and recursive listings of a directory would share one entry")
+	}
 }
 
 // C03: a store that cannot strip replica labels itself is re-sorted after the labels are removed — removing
